@@ -12,6 +12,7 @@
  *        of every method, simultaneous forms) on [k]: e(G1, routine(k)) = E0^k;
  *   g2l: the group law of the extension curve in every coordinate system and operand representation: e(G1, [i]Q op [j]Q) = E0^(i op j) for all
  *        pairs of an index alphabet (equal, opposite, identity operands included);
+ *   g2f: the Frobenius endomorphism, every power 0..k+1, on affine and projective operands, in place: e(G1, frb^i([j]G2)) = E0^(j p^i);
  *   gte: every exponentiation form of the target group against the reference power;
  *   val: validity predicates on members, identities, elements / points outside the groups (twist points found by solving the curve equation),
  *        and cofactor clearing of such points.
@@ -155,6 +156,14 @@ static void do_g2l(vf_case *c) {
 	if (th) vf_fail(NULL, "%s raised", w); else expect_g2(w, X, e);
 	mpz_clear(e); g2_free(A); g2_free(B); g2_free(X);
 }
+/* g2f: power, index, representation: the Frobenius endomorphism acts on G2 as multiplication by p: e(G1, frb^i([j]G2)) = E0^(j p^i) */
+static void do_g2f(vf_case *c) {
+	int pw = (int)mpz_get_si(c->v[0]), jj = (int)mpz_get_si(c->v[1]), proj = (int)mpz_get_si(c->v[2]), th; long j = LI[jj]; g2_t A, X; g2_null(A); g2_new(A); g2_null(X); g2_new(X); mk_g2(A, j, proj && j != 0);
+	VF_TRY(th, g2_frb(X, A, pw)); mpz_t e, pp; mpz_inits(e, pp, NULL); mpz_pow_ui(pp, vf_p, (unsigned long)pw); mpz_set_si(e, j); mpz_mul(e, e, pp);
+	char w[96]; snprintf(w, sizeof w, "g2_frb(., %d) on %s [%ld]G2", pw, proj ? "the projective" : "the affine", j); if (th) vf_fail(NULL, "%s raised", w); else expect_g2(w, X, e);
+	/* in place */ VF_TRY(th, g2_frb(A, A, pw)); if (!th) { snprintf(w, sizeof w, "g2_frb(., %d) in place on %s [%ld]G2", pw, proj ? "the projective" : "the affine", j); expect_g2(w, A, e); }
+	mpz_clears(e, pp, NULL); g2_free(A); g2_free(X);
+}
 /* gte: form, scalar index */
 static const char *GER[] = {"gt_exp", "gt_exp_sec", "gt_exp_dig", "gt_exp_gen", "gt_exp_sim", "gt_inv", "gt_sqr / gt_mul", "gt_frb"};
 #define NGER 8
@@ -192,7 +201,7 @@ static void do_val(vf_case *c) {
 static void run_case(vf_case *c) {
 	vf_nontrivial(); if (!vf_replaying) vf_stat_add("states", 1);
 	if (!strcmp(c->op, "base")) { do_base(c); return; } if (!ready) return;
-	if (!strcmp(c->op, "bil")) do_bil(c); else if (!strcmp(c->op, "sim")) do_sim(c); else if (!strcmp(c->op, "g2m")) do_g2m(c); else if (!strcmp(c->op, "g1m")) do_g1m(c); else if (!strcmp(c->op, "g2l")) do_g2l(c); else if (!strcmp(c->op, "gte")) do_gte(c); else if (!strcmp(c->op, "val")) do_val(c); else vf_fail(NULL, "unknown op");
+	if (!strcmp(c->op, "bil")) do_bil(c); else if (!strcmp(c->op, "sim")) do_sim(c); else if (!strcmp(c->op, "g2m")) do_g2m(c); else if (!strcmp(c->op, "g1m")) do_g1m(c); else if (!strcmp(c->op, "g2l")) do_g2l(c); else if (!strcmp(c->op, "g2f")) do_g2f(c); else if (!strcmp(c->op, "gte")) do_gte(c); else if (!strcmp(c->op, "val")) do_val(c); else vf_fail(NULL, "unknown op");
 }
 static vf_case K;
 #define RUN2(OP, A, B) do { if (vf_mine() && !vf_expired()) { K.op = OP; K.n = 2; mpz_set_si(K.v[0], A); mpz_set_si(K.v[1], B); vf_run(&K); } } while (0)
@@ -205,6 +214,7 @@ static void enumerate(void) {
 	snprintf(bn, sizeof bn, "c11-k%d-g2-every-multiplication-routine", K_); if (vf_bound_on(bn)) { for (int rt = 0; rt < NG2R; rt++) for (int k = 0; k < NSC; k++) RUN2("g2m", rt, k); vf_bound_done(bn); }
 	snprintf(bn, sizeof bn, "c12-k%d-g1-every-multiplication-routine", K_); if (vf_bound_on(bn)) { for (int rt = 0; rt < NG1R; rt++) for (int k = 0; k < NSC; k++) RUN2("g1m", rt, k); vf_bound_done(bn); }
 	snprintf(bn, sizeof bn, "c11-k%d-g2-group-law-all-index-pairs", K_); if (vf_bound_on(bn)) { for (int f = 0; f < NLF; f++) for (int i = 0; i < NLI; i++) for (int j = 0; j < NLI; j++) { if (f >= 7 && f <= 11 && j) continue; RUN3("g2l", i, j, f); } vf_bound_done(bn); }
+	snprintf(bn, sizeof bn, "c11-k%d-g2-frobenius-every-power-both-representations", K_); if (vf_bound_on(bn)) { for (int pw = 0; pw <= K_ + 1; pw++) for (int j = 0; j < NLI; j++) for (int pr = 0; pr < 2; pr++) { if (K_ > 24 && pw > 18 && (pw + j) % 3) continue; RUN3("g2f", pw, j, pr); } vf_bound_done(bn); }
 	snprintf(bn, sizeof bn, "c12-k%d-gt-exponentiation-forms", K_); if (vf_bound_on(bn)) { for (int rt = 0; rt < NGER; rt++) for (int k = 0; k < NSC; k++) RUN2("gte", rt, k); vf_bound_done(bn); }
 	snprintf(bn, sizeof bn, "c12-k%d-validity-predicates", K_); if (vf_bound_on(bn)) { for (int k = 0; k < NSC; k++) RUN2("val", 0, k); for (int i = 0; i < 12; i++) RUN2("val", 1, i); vf_bound_done(bn); }
 	snprintf(bn, sizeof bn, "c11-k%d-twist-points-outside-the-subgroup-and-cofactor", K_); if (vf_bound_on(bn)) { for (int i = 0; i < (vf_tier ? 12 : 4); i++) RUN2("val", 2, i); vf_bound_done(bn); }
